@@ -682,6 +682,81 @@ Definition stabilize (p : plan) (cancelled : bool) (s : state) : M :=
   s <-! stabilizeEnd s e;
   Ok (s, e).
 
+(** ** ParallelStabilize, as one sequential schedule: each height block in queue order.
+    recomputeNodeParallel never hands a dependent back for immediate recompute; every node
+    of a block runs even when an earlier one failed (parallelBatch keeps the first error);
+    a panic is recovered per node (recomputePanicked) and becomes that node's error. *)
+Definition recomputeNodeParallel (fuel : nat) (p : plan) (s : state) (n : nid) : res (state * option err) :=
+  let x := nd s n in
+  let prev := recomputedAt x in
+  let s := upd s n (set recomputedAt (fun _ => stabNum s)) in
+  '(s, e, cut) <-! (match nkind x with
+     | KCutoff c =>
+       let old := value x in
+       let new := valueOf s (hd 0%nat (decl x)) in
+       '(s, e) <-! invoke p s n WCut;
+       match e with
+       | Some e => Ok (s, Some e, false)
+       | None => let v := apCut c old new in Ok (emit (EvCutoff n old new v) s, None, v)
+       end
+     | _ => Ok (s, None, false)
+     end);
+  let panicked s m :=
+      (* the worker's recover: recomputePanicked(n) *)
+      let s := upd s n (set recomputedAt (fun _ => 0)) in
+      s <-! heapAddIfNotPresent s n;
+      Ok (errorHandlers s n, Some (EPanic m)) in
+  match e with
+  | Some (EPanic m) => panicked s m
+  | Some e => s <-! recomputeFailed s n prev; Ok (errorHandlers s n, Some e)
+  | None =>
+    if cut then Ok (s, None) else
+    '(s, e) <-! stabilizeNode fuel p s n;
+    match e with
+    | Some (EPanic m) => panicked s m
+    | Some e => s <-! recomputeFailed s n prev; Ok (errorHandlers s n, Some e)
+    | None =>
+      let s := upd s n (set changedAt (fun _ => stabNum s)) in
+      let s := insert_handler n s in
+      s <-! rfold (fun s c => if shouldRecomputeChild s c then heapAdd s c else Ok s) (children (nd s n)) s;
+      let s := foldl (fun s o => insert_handler o s) s (observers (nd s n)) in
+      Ok (s, None)
+    end
+  end.
+
+Fixpoint parLoop (fuel : nat) (p : plan) (s : state) (always : list nid)
+  : res (state * option err * list nid) :=
+  match fuel with
+  | O => OutOfFuel
+  | S fuel =>
+    if Heap.cnt (heap s) <=? 0 then Ok (s, None, always) else
+    let '(block, w) := Heap.takeMinBlock (heap s) in
+    let s := s <| heap := w |> in
+    (* the bind lhs-change nodes of the block first, then the others; a node that an earlier
+       node of the block tore down (height unset) is skipped *)
+    let isLhs n := match nkind (nd s n) with KBindLhs _ => true | _ => false end in
+    let order := filter (fun n => isLhs n = true) block ++ filter (fun n => isLhs n = false) block in
+    '(s, e, always) <-!
+       rfold (fun '(s, e, always) n =>
+                if height (nd s n) =? unset then Ok (s, e, always) else
+                '(s, e') <-! recomputeNodeParallel fuel p s n;
+                let always := if isAlways (nkind (nd s n)) then always ++ [n] else always in
+                Ok (s, match e with Some _ => e | None => e' end, always))
+             order (s, None, always);
+    match e with
+    | Some _ => Ok (s, e, always)
+    | None => parLoop fuel p s always
+    end
+  end.
+
+Definition parStabilize (p : plan) (s : state) : M :=
+  if negb (status s =? 0) then fail s EAlreadyStabilizing else
+  let s := emit EvPassStart (s <| status := 1 |>) in
+  '(s, e, always) <-! parLoop (passFuel s) p s [];
+  s <-! rfold (fun s n => if (height (nd s n) =? unset) || inHeap s n then Ok s else heapAdd s n) always s;
+  s <-! stabilizeEnd s e;
+  Ok (s, e).
+
 (** ** Observe / Unobserve *)
 Definition observe (s : state) (n : nid) : M :=
   let o := next s in
@@ -765,7 +840,7 @@ Definition op_ok (s : state) (o : op) : bool :=
   | SetVar v _ | UpdateVar v _ => isVar s v
   | AddInput n a => isMapN s n && isUserNode s a
   | RemoveInput n a => isMapN s n && isUserNode s a
-  | Stabilize p => plan_ok s p
+  | Stabilize p | ParStabilize p => plan_ok s p
   | StabilizeCancelled => true
   end.
 
@@ -799,6 +874,7 @@ Definition step (s : state) (o : op) : M :=
   | RemoveInput n a => lift (removeInput s n a)
   | Stabilize p => stabilize p false s
   | StabilizeCancelled => stabilize [] true s
+  | ParStabilize p => parStabilize p s
   end.
 
 (** a history: every operation must be well-formed when issued; errors are results, the
